@@ -1,8 +1,11 @@
 #!/bin/bash
-# runall.sh <tier>: every check once; summary in /tmp/runall.<tier>.txt (developer convenience)
+# runall.sh <tier> [Cxx ...]: every (or the named) check once; summary in /tmp/runall.<tier>.txt (developer convenience)
 tier=${1:-quick}
+shift
+props=${*:-$(seq -w 1 20)}
 out=/tmp/runall.$tier.txt; : > $out
-for i in $(seq -w 1 20); do
+for i in $props; do
+  i=${i#C}
   s=$(date +%s)
   ./run.sh check C$i $tier > /tmp/runall.C$i.$tier.log 2>&1; rc=$?
   e=$(( $(date +%s) - s ))
